@@ -80,7 +80,9 @@ def open_step(ck, prog, cfg):
             recv = total(eff, 'pull', fn, lambda e: same(e.dst, INC)) - out_flow
         if cfg == 'nn_same':
             # carve-out: with fee denom == flow denom nothing ties the attached funds to the declared amount
-            ck.oblige('C12.open.funded_eq_received.nn_same.unchecked_funds', p, funded != recv,
+            declared = p.extra['A']
+            ck.oblige('C12.open.funded_eq_received.nn_same', p, funded != declared - fee_amt, 'the funded amount is the declared amount minus the creation fee')
+            ck.oblige('C12.open.funded_eq_received.nn_same.unchecked_funds', p, z3.And(funded == declared - fee_amt, funded != recv),
                       'fee denom == flow denom: the declared flow amount is never compared with the funds attached (only the fee is)', site='open_flow same-denom funds check')
         else:
             ck.oblige('C12.open.funded_eq_received.' + cfg, p, funded != recv, 'the funded amount equals the tokens the contract received for the flow')
@@ -124,7 +126,9 @@ def expand_step(ck, prog, kind):
         reset = st['f_end'] - st['f_start'] > 180          # FLOW_EXPANSION_LIMIT: the flow is re-based ("flow reset")
         keep = z3.Not(reset)
         grew = new_total - st['f_amount']
-        ck.oblige('C12.expand.reset.accounting.' + tag, p, z3.And(reset, new_total != (st['f_amount'] - st['f_claimed']) + X),
+        rebased = z3.If(X >= st['f_claimed'], X - st['f_claimed'], 0) + X        # exactly the known behaviour
+        ck.oblige('C12.expand.reset.' + tag, p, z3.And(reset, new_total != rebased, new_total != (st['f_amount'] - st['f_claimed']) + X), 're-based total = original - claimed + expansion')
+        ck.oblige('C12.expand.reset.accounting.' + tag, p, z3.And(reset, new_total == rebased, new_total != (st['f_amount'] - st['f_claimed']) + X),
                   'a flow longer than 180 epochs is re-based on expansion; with no earlier expansion the re-based amount is taken from the expanding asset instead of the flow\'s own amount',
                   site='expand_flow reset default')
         if kind == 'native':
@@ -132,7 +136,8 @@ def expand_step(ck, prog, kind):
             ck.oblige('C12.expand.funded_eq_received.n', p, z3.And(grew != recv, keep), 'expansion grows the funded amount by exactly the attached funds')
         else:
             recv = total(eff, 'pull', name, lambda e: same(e.dst, INC))
-            ck.oblige('C12.expand.funded_eq_received.c.no_transfer', p, z3.And(grew != recv, keep),
+            ck.oblige('C12.expand.funded_eq_received.c', p, z3.And(keep, grew != recv, z3.Not(z3.And(recv == 0, grew == X))), 'expansion grows the funded amount by exactly what was pulled')
+            ck.oblige('C12.expand.funded_eq_received.c.no_transfer', p, z3.And(keep, recv == 0, grew == X, X != 0),
                       'cw20 expansion: the TransferFrom is built but never added to the response, so the flow grows without receiving tokens', site='expand_flow cw20 TransferFrom dropped')
         ck.oblige('C12.expand.amount.' + tag, p, z3.And(grew != X, keep), 'the recorded total grows by the stated amount')
         ck.oblige('C12.expand.claimed_kept.' + tag, p, z3.And(fl[0].fields[4].fields[0] != st['f_claimed'], keep), 'claimed amount untouched by an expansion')
@@ -163,7 +168,8 @@ def close_step(ck, prog, kind, expanded):
         ck.oblige('C12.close.recipient.' + tag, p, len(others) != 0, 'the refund goes to the flow creator only')
         funded = st['expanded_total']
         if expanded:
-            ck.oblige('C12.close.refund.expanded.ignores_expansion', p, refund != funded - st['f_claimed'],
+            base = z3.If(st['f_amount'] >= st['f_claimed'], st['f_amount'] - st['f_claimed'], 0)
+            ck.oblige('C12.close.refund.expanded.ignores_expansion', p, z3.And(refund == base, refund != funded - st['f_claimed']),
                       'close refunds flow_asset.amount - claimed, ignoring expansions recorded in asset_history', site='close_flow ignores asset_history')
             ck.oblige('C12.close.refund.base.' + tag, p, refund != z3.If(st['f_amount'] >= st['f_claimed'], st['f_amount'] - st['f_claimed'], 0), 'refund = original amount - claimed (saturating)')
         else:
